@@ -255,6 +255,11 @@ func Discharge(g *Gen, o *Oblig, dir string, timeoutS int) {
 	}
 	if o.Status != "unsat" && !o.Cover && len(o.WitTerms) > 0 {
 		g.findWitness(o, dir, timeoutS)
+	} else if o.Status != "unsat" && !o.Cover && o.ReplayTemplate != "" {
+		// scenario replay: a fixed deterministic scenario run against the real code
+		out, ok := replayTemplate(g.P.Repo, o.ReplayTemplate, o.ReplayPkgDir, map[string]string{})
+		o.ReplayOut, o.WitnessConfirmed = out, ok
+		o.Witness = "scenario " + o.ReplayTemplate
 	}
 }
 
